@@ -133,8 +133,11 @@ func (x *XNumber) UnmarshalJSON(data []byte) error {
 		return err
 	}
 
-	// as for numbers inside JSON values: comparing or rendering costs time and memory proportional to 10^|exponent|
-	if x.native.Exponent() < -maxJSONNumberExponent || x.native.Exponent() > maxJSONNumberExponent {
+	// as for numbers inside JSON values: comparing or rendering costs time and memory proportional to 10^|exponent|.
+	// A number written out in full, which is how MarshalJSON writes every number, has an exponent smaller than its
+	// length and is always accepted: only exponent notation can make a short text into a huge exponent.
+	limit := int32(max(maxJSONNumberExponent, len(data)))
+	if x.native.Exponent() < -limit || x.native.Exponent() > limit {
 		return errors.New("number value out of range")
 	}
 	return nil
